@@ -266,3 +266,11 @@ def sample(r):
     return dict(kind='history', origin=r['origin'],
                 items=['%s/%s/%s' % (s['item']['cache'], s['item']['mod'], s['item']['beh']) for s in r['steps']][:12],
                 caches_after_last=r['steps'][-1]['caches'])
+
+
+def corrupt(r):
+    if r['kind'] == 'history':
+        r['steps'][0]['fresh'] = 'corrupted'
+    else:
+        r['complete'] = False
+    return r
